@@ -95,7 +95,7 @@ RANDOM_CFGS = {
 
 def _random_one(args):
     name, seed, ntraces, nsteps, outdir = args
-    from .store_driver import RealStore, random_history
+    from .store_driver import RealStore, random_history, crash_event
     cfg, alpha, nprocs, via_edge = RANDOM_CFGS[name]
     rng = random.Random("%s-%d" % (name, seed))
     traces = []
@@ -104,10 +104,13 @@ def _random_one(args):
         real = RealStore(cfg, nprocs=nprocs, via_edge=via_edge)
         tr = {"cfg": cfg, "src": "random", "name": name, "ev": [real.settle()]}
         try:
-            tr["ev"].extend(random_history(real, rng, nsteps, nprocs=nprocs, max_live=rng.choice([4, 6, 10]),
-                                           p_ill=rng.choice([0.05, 0.15]), p_tick=rng.choice([0.1, 0.25]), **alpha))
+            random_history(real, rng, nsteps, nprocs=nprocs, max_live=rng.choice([4, 6, 10]),
+                           p_ill=rng.choice([0.05, 0.15]), p_tick=rng.choice([0.1, 0.25]), out=tr["ev"], **alpha)
         except Exception as ex:
-            tr["src"] = "random-crash:%s:%s" % (type(ex).__name__, ex)
+            if not common.from_library(ex):
+                raise                        # a bug of the harness, not of the library
+            tr["src"] = "random-crash:%s:%s" % (type(ex).__name__, str(ex)[:200])
+            tr["ev"].append(crash_event(real, tr["ev"]))
         nev += len(tr["ev"])
         traces.append(tr)
     common.save_json(os.path.join(outdir, ("rbelt_%s.json" if name.startswith("b_") else "rand_%s.json") % name), traces)
@@ -206,7 +209,7 @@ def _legC_one(args):
         invs, props = ["T_WF"], ["T_C05_GrantOrder", "T_TimeMonotone"]
     elif fname.startswith("rbelt_"):
         # belt stores: the ledger-level clauses that do not need the belt's admission geometry
-        invs = ["T_WF", "T_C01_Cap", "T_C01_Occupancy", "T_C02_Backed", "T_C02_ReadyInside"]
+        invs = ["T_WF", "T_C01_Cap", "T_C01_Occupancy", "T_C01_NoBreakdown", "T_C02_Backed", "T_C02_ReadyInside", "T_C02_NoBreakdown"]
         props = ["T_TimeMonotone", "T_C01_PutHonoured", "T_C02_GetFresh", "T_C02_GetHonoured", "T_C02_NoInvent", "T_C05_GrantOrder",
                  "T_C07_Reject", "T_C07_Accept"]
     else:
